@@ -20,6 +20,8 @@ import time
 VERIF = os.path.dirname(os.path.dirname(os.path.dirname(os.path.abspath(__file__))))
 PY = os.path.join(VERIF, ".venv", "bin", "python")
 KNOWN = os.path.join(VERIF, "known_findings.json")
+# scratch runs (seeded changes tried in a worktree: VERIF_REPO + PYTHONPATH) write elsewhere
+OUT = os.environ.get("VERIF_OUT", VERIF)
 # CPU budgets in the property modules are the sizes measured on the reference run; every budget is
 # multiplied by this head-room factor so that a slower or busier machine does not turn a
 # dischargeable obligation into an INCONCLUSIVE one.
@@ -242,7 +244,7 @@ def run_property(prop: str, tier: str, seed: int = 0, jobs: int | None = None, o
     known = load_known(prop)
     workdir = os.path.join(VERIF, ".work", f"{prop}-{os.getpid()}")
     os.makedirs(workdir, exist_ok=True)
-    rdir = os.path.join(VERIF, "replays", prop)
+    rdir = os.path.join(OUT, "replays", prop)
     if not only:  # a full run owns the property's replay directory: no stale counterexamples
         shutil.rmtree(rdir, ignore_errors=True)
     os.makedirs(rdir, exist_ok=True)
@@ -354,10 +356,10 @@ def write_evidence(mod, prop, tier, seed, results, wall, nviol, only=None):
         "wall_s": round(wall, 1),
         "violations": nviol,
     }
-    os.makedirs(os.path.join(VERIF, "evidence"), exist_ok=True)
+    os.makedirs(os.path.join(OUT, "evidence"), exist_ok=True)
     # a filtered run (--only) is a debugging aid: it must not overwrite the property's evidence
     fname = prop + ".json" if not only else prop + ".partial.json"
-    json.dump(ev, open(os.path.join(VERIF, "evidence", fname), "w"), indent=1)
+    json.dump(ev, open(os.path.join(OUT, "evidence", fname), "w"), indent=1)
 
 
 def replay_file(path: str) -> int:
